@@ -233,6 +233,23 @@ func WithLeadingZero(t string, n int) *Key {
 // zero bytes (P-521: three, its top byte holds one bit) - about one key in 2^16 per coordinate; found by cmd/lzsearch.
 var twoLeadingZeros = map[string][2]int{"secp256k1": {44628, 41191}, "P-256": {40392, 2375}, "P-384": {14970, 93149}, "P-521": {10734, 63505}}
 
+// bothLeadingZeros lists, per curve, the index of a derived key whose X and Y coordinates both begin with a zero byte (P-521: two).
+var bothLeadingZeros = map[string]int{"secp256k1": 55958, "P-256": 49349, "P-384": 6393, "P-521": 370727}
+
+// WithBothLeadingZeros returns the derived key of the curve whose two coordinates both begin with a zero byte.
+func WithBothLeadingZeros(t string) *Key {
+	idx, ok := bothLeadingZeros[t]
+	if !ok {
+		panic("keys: no both-leading-zero key for " + t)
+	}
+	k := New(t, idx)
+	x, y := k.XY()
+	if x[0] != 0 || y[0] != 0 {
+		panic("keys: table of both-leading-zero keys is wrong for " + t)
+	}
+	return k
+}
+
 // WithTwoLeadingZeros returns the derived key of the curve whose X (which = 0) or Y (which = 1) coordinate begins with two zero bytes.
 func WithTwoLeadingZeros(t string, which int) *Key {
 	idx, ok := twoLeadingZeros[t]
